@@ -74,6 +74,11 @@ type leaseFacade struct {
 	casGo      chan struct{}
 	holdCreate int32
 	createGo   chan struct{}
+	// the REPLY of the k-th renewal call can be held back: the call has taken effect in the store, the library
+	// has not seen its result yet
+	holdCasReply int32
+	casApplied   chan struct{}
+	casReplyGo   chan struct{}
 }
 
 func (f *leaseFacade) Create(ctx context.Context, r kvs.Record) (string, error) {
@@ -121,6 +126,10 @@ func (f *leaseFacade) CasByVersion(ctx context.Context, r kvs.Record) (kvs.Recor
 	}
 	f.s.events = append(f.s.events, map[string]any{"e": "cas", "p": f.p, "res": res, "exp": f.s.us(r.ExpiresAt), "n": n, "t": f.s.now()})
 	f.s.mu.Unlock()
+	if n == atomic.LoadInt32(&f.holdCasReply) {
+		close(f.casApplied)
+		<-f.casReplyGo
+	}
 	if lost {
 		return kvs.Record{}, errInjected
 	}
@@ -321,6 +330,41 @@ func runLeaseScenario(sc leaseScenario) (*leaseSys, bool) {
 		if ok {
 			contender.locker.Unlock()
 		}
+	case "slowreply":
+		// The k-th renewal has taken effect in the store but its reply is still on its way when the holder unlocks.
+		// Unlock must leave nothing behind: the record is gone at once, the lock is free, renewal dies out.
+		holder.fac.casApplied, holder.fac.casReplyGo = make(chan struct{}), make(chan struct{})
+		atomic.StoreInt32(&holder.fac.holdCasReply, int32(sc.Periods))
+		select {
+		case <-holder.fac.casApplied:
+		case <-time.After(time.Duration(int64(sc.Periods+1)*ttl)*time.Microsecond + 2*time.Second):
+			s.log(map[string]any{"e": "harness-error", "what": "renewal never issued"})
+			close(holder.fac.casReplyGo)
+			return s, false
+		}
+		s.log(map[string]any{"e": "rel", "p": 1})
+		holder.locker.Unlock()
+		s.log(map[string]any{"e": "unlocked", "p": 1})
+		s.probe()
+		if sc.Phase%2 == 0 {
+			close(holder.fac.casReplyGo)
+			time.Sleep(2 * time.Millisecond)
+			s.probe()
+		}
+		ok := contender.locker.TryLock(context.Background())
+		s.log(map[string]any{"e": "freetry", "p": 2, "ok": ok})
+		if ok {
+			contender.locker.Unlock()
+		}
+		if sc.Phase%2 == 1 {
+			close(holder.fac.casReplyGo)
+		}
+		observe(s.now()+2*ttl, false)
+		ok = contender.locker.TryLock(context.Background())
+		s.log(map[string]any{"e": "freetry", "p": 2, "ok": ok})
+		if ok {
+			contender.locker.Unlock()
+		}
 	case "stalecas":
 		// The first renewal call of the tenure is issued by the library but held back on its way to the store;
 		// meanwhile the holder unlocks and the SAME Locker is used again; the old renewal reaches the store before
@@ -511,6 +555,10 @@ func driveLease(opt *Options) error {
 			scs = append(scs, leaseScenario{Kind: "stalecas", TTL: ttl, Pair: true, FaultAt: 1, Fault: "lost"})
 			for ph := 0; ph < 8; ph += 2 {
 				scs = append(scs, leaseScenario{Kind: "unlockrace", TTL: ttl, Periods: 2, Phase: ph})
+			}
+			for k := 1; k <= 2; k++ {
+				scs = append(scs, leaseScenario{Kind: "slowreply", TTL: ttl, Periods: k, Phase: 0})
+				scs = append(scs, leaseScenario{Kind: "slowreply", TTL: ttl, Periods: k, Phase: 1})
 			}
 		}
 	case "handoff": // C01 under real leases: a caller that waited long acquires and holds
